@@ -96,6 +96,11 @@ impl ParserObj for P {
     }
 }
 
+mod canon {
+    use super::ais;
+    include!("canon_body.rs");
+}
+
 pub struct C;
 
 impl Config for C {
@@ -136,6 +141,19 @@ impl Config for C {
             Ok(Err(e)) => PRes::Err(e),
             Err(m) => PRes::Panic(m),
         }
+    }
+
+    fn canon_history(&self, lines: &[(Vec<u8>, bool)]) -> Vec<String> {
+        let mut p = ais::AisParser::new();
+        lines.iter().map(|(l, d)| guarded(|| canon::canon_line(&mut p, l, *d)).unwrap_or_else(|_| "PANIC".into())).collect()
+    }
+
+    fn canon_parse(&self, bytes: &[u8]) -> String {
+        guarded(|| canon::canon_parse(bytes)).unwrap_or_else(|_| "PANIC".into())
+    }
+
+    fn canon_unarmor(&self, data: &[u8], fill: usize) -> String {
+        guarded(|| canon::canon_unarmor(data, fill)).unwrap_or_else(|_| "PANIC".into())
     }
 
     fn shiptype_parse(&self, code: u8) -> PRes<(String, Option<u8>)> {
